@@ -30,7 +30,7 @@ ASSUMPTIONS = ["dot-directories are not generated (the property speaks of non-hi
 DECIDING = ["trees_run", "fault_runs", "entry_point_comparisons"]
 EXHAUSTIVE_NOTE = "for trees of <= 6 files: every fault kind x position and every pair of positions"
 
-FAULTS = ["undecodable", "outdir", "parentfile"]
+FAULTS = ["undecodable", "undecodable-late", "outdir", "parentfile"]
 NAMES = ["rtr1.cfg", "core sw.cfg", "édge-ß.conf", "noext", "a.b.c.txt", "x", "配置.cfg", "UPPER.CFG", "r2.cfg", "fw 01 (old).txt"]
 DIRS = ["site a", "dc1", "ünïcode", "deep", "x.d", "lab"]
 
@@ -38,14 +38,14 @@ DIRS = ["site a", "dc1", "ünïcode", "deep", "x.d", "lab"]
 def cases(ctx):
     rng = ctx.rng
     subs = [s for s in M.subsets() if s]
-    for i in range(ctx.per_shard(ctx.pick(24, 2500))):
+    for i in range(ctx.per_shard(ctx.pick(48, 3000))):
         yield {"kind": "tree", "seed": rng.getrandbits(32), "feats": rng.choice(subs), "nfiles": rng.randint(1, 12),
                "faults": "sample", "entry": rng.random() < 0.5, "cli": rng.random() < ctx.pick(0.15, 0.1),
                "strace": (not ctx.quick) and rng.random() < 0.05}
     for i in range(ctx.per_shard(ctx.pick(4, 160))):
         yield {"kind": "tree", "seed": rng.getrandbits(32), "feats": rng.choice(subs), "nfiles": rng.randint(2, 5 if ctx.quick else 6),
                "faults": "exhaustive", "entry": False, "cli": False, "strace": False}
-    for i in range(ctx.per_shard(ctx.pick(8, 400))):
+    for i in range(ctx.per_shard(ctx.pick(24, 600))):
         yield {"kind": "single", "seed": rng.getrandbits(32), "feats": rng.choice(subs)}
     if ctx.shard == 0:
         yield {"kind": "tree", "seed": rng.getrandbits(32), "feats": ["pwd", "ip"], "nfiles": 4, "faults": "none",
@@ -234,6 +234,16 @@ def _one_run(ctx, case, nc, rd, opts, feats, tree, visible, fset, pre, rng, entr
             for f in t2["files"]:
                 if f["rel"] == rel:
                     f["bytes"] = b"\xff\xfe\xfa bad \x80 bytes\n" + f["text"].encode("utf-8")
+            failing.add(rel)
+        elif kind == "undecodable-late":
+            # a big file (several read chunks) whose only undecodable byte is at the very end, with
+            # fresh secrets before it: nothing of it may influence the files processed afterwards
+            for f in t2["files"]:
+                if f["rel"] == rel:
+                    body = f["text"] if f["text"].endswith("\n") or not f["text"] else f["text"] + "\n"
+                    body += "".join("username u%d password Late%dSecret%d\n ip address 10.%d.%d.1 255.255.255.0\n" % (i, i, i * 7, i % 250, i % 199)
+                                    for i in range(300))
+                    f["bytes"] = body.encode("utf-8") + b"tail \xff\xfe\n"
             failing.add(rel)
     materialise(t2, src)
     if pre != "absent":
